@@ -36,19 +36,26 @@ def sentinel_of(program, unit, e):
 
 
 def sentinel_tests(program, unit, cfg, var):
-    """test nodes `var is SKIP|STOP` -> list of (node, sentinel)"""
+    """test nodes `var is SKIP|STOP` / `var is not SKIP|STOP` ->
+    list of (node, sentinel, label of the out-edge taken when the value is the sentinel)"""
     out = []
     for n in cfg.nodes:
         if n.kind != 'test':
             continue
         for t in ast.walk(n.ast):
             if isinstance(t, ast.Compare) and is_name(t.left, var) and len(t.ops) == 1 \
-                    and isinstance(t.ops[0], ast.Is):
+                    and isinstance(t.ops[0], (ast.Is, ast.IsNot)):
                 s = sentinel_of(program, unit, t.comparators[0])
-                if s:
-                    # only plain tests or `a or b` disjunctions keep the true edge meaning "is sentinel"
+                if not s:
+                    continue
+                if isinstance(t.ops[0], ast.Is):
+                    # plain tests or `a or b` disjunctions keep the true edge meaning "is sentinel"
                     if n.ast is t or (isinstance(n.ast, ast.BoolOp) and isinstance(n.ast.op, ast.Or)):
-                        out.append((n, s))
+                        out.append((n, s, 'true'))
+                else:
+                    # `x is not S` / `a and b` conjunctions: the false edge is taken when it is
+                    if n.ast is t or (isinstance(n.ast, ast.BoolOp) and isinstance(n.ast.op, ast.And)):
+                        out.append((n, s, 'false'))
     return out
 
 
@@ -101,30 +108,30 @@ def sentinel_discipline(ctx):
             tests = sentinel_tests(p, u, cfg, var)
             for s in stores:
                 for sent in sorted(need):
-                    ts = [t for t, sn in tests if sn == sent and cfg.dominates(t, s) and cfg.dominates(n, t)]
+                    ts = [(t, e) for t, sn, e in tests if sn == sent and cfg.dominates(t, s) and cfg.dominates(n, t)]
                     ok = False
                     wit = []
-                    for t in ts:
-                        pth = cfg.find_path(t, {s}, avoid={header}, start_labels=lambda lab: lab == 'true',
+                    for t, edge in ts:
+                        pth = cfg.find_path(t, {s}, avoid={header}, start_labels=lambda lab, edge=edge: lab == edge,
                                             labels=lambda lab: lab != 'exc')
                         if pth is None:
                             ok = True
                         else:
                             wit = fmt_witness(cfg, pth)
                     ctx.ob(ok, u, 'store `%s` happens only when the result is not %s' % (norm(s.ast), sent),
-                           '' if ok else 'no dominating `%s is %s` test whose true edge avoids the store' % (var, sent),
+                           '' if ok else 'no dominating `%s is [not] %s` test whose sentinel edge avoids the store' % (var, sent),
                            node=s.ast, witness=wit)
             # STOP ends the loop: the true edge of the STOP test never reaches the header again
-            for t, sent in tests:
+            for t, sent, edge in tests:
                 if sent == 'STOP' and cfg.dominates(n, t) and 'STOP' in need:
-                    pth = cfg.find_path(t, {header}, start_labels=lambda lab: lab == 'true',
+                    pth = cfg.find_path(t, {header}, start_labels=lambda lab, edge=edge: lab == edge,
                                         labels=lambda lab: lab != 'exc')
                     ctx.ob(pth is None, u, 'STOP ends the iteration: `%s`' % norm(t.ast),
                            '' if pth is None else 'the loop continues after STOP', node=t.ast,
                            witness=fmt_witness(cfg, pth))
                 if sent == 'SKIP' and cfg.dominates(n, t):
                     # SKIP goes on with the next item: header reachable on the true edge
-                    pth = cfg.find_path(t, {header}, start_labels=lambda lab: lab == 'true',
+                    pth = cfg.find_path(t, {header}, start_labels=lambda lab, edge=edge: lab == edge,
                                         labels=lambda lab: lab != 'exc')
                     ctx.ob(pth is not None, u, 'SKIP continues with the next item: `%s`' % norm(t.ast), node=t.ast)
         ctx.require(found >= 1, '%s: no stored evaluator result found' % q)
@@ -213,7 +220,22 @@ def order(ctx):
     for q, must_iter in ORDER_LOOPS.items():
         u = ctx.unit(q)
         loops = [n for n in u.own_nodes() if isinstance(n, ast.For)]
-        ctx.require(loops, '%s: no loop' % q)
+        wloops = [n for n in u.own_nodes() if isinstance(n, ast.While)]
+        ctx.require(loops or wloops, '%s: no loop' % q)
+        texts = [norm(lp.iter) for lp in loops]
+        for lp in wloops:
+            # index loop (``for i in range(..)`` is normalised to this form): ascending index
+            t = lp.test
+            iv = t.left.id if isinstance(t, ast.Compare) and is_name(t.left) else None
+            steps = [n for n in ast.walk(lp) if isinstance(n, ast.AugAssign) and iv and is_name(n.target, iv)]
+            ok = bool(steps) and all(isinstance(n.op, ast.Add) and isinstance(n.value, ast.Constant)
+                                     and isinstance(n.value.value, int) and n.value.value > 0 for n in steps) \
+                and isinstance(t.ops[0], (ast.Lt, ast.LtE, ast.NotEq))
+            ctx.ob(ok, u, 'index loop visits positions in ascending order: while %s' % src(t, 50),
+                   '' if ok else 'steps: %s' % [norm(n) for n in steps], node=lp)
+            for sub in ast.walk(lp):
+                if isinstance(sub, ast.Subscript) and iv and any(is_name(x, iv) for x in ast.walk(sub.slice)):
+                    texts.append(norm(sub.value))
         for lp in loops:
             it = lp.iter
             bad = []
@@ -228,7 +250,6 @@ def order(ctx):
             ctx.ob(not bad, u, 'loop iterates in the container\'s own order: for %s in %s'
                    % (src(lp.target, 30), src(it, 60)), 'reordering: %s' % bad if bad else '', node=lp)
         if must_iter:
-            texts = [norm(lp.iter) for lp in loops]
             ok = any(must_iter in t for t in texts)
             ctx.ob(ok, u, 'iterates %s' % must_iter, 'loops iterate: %s' % texts)
     # Or: all but the last child in order, then the last
@@ -328,34 +349,63 @@ def coalesce(ctx):
     st = node.ast
     ctx.require(isinstance(st, ast.Assign) and is_name(st.targets[0]), 'Coalesce.glomit: result not assigned')
     ret = st.targets[0].id
-    breaks = [n for n in cfg.nodes if n.kind == 'stmt' and isinstance(n.ast, ast.Break) and header in n.loop_stack]
-    ctx.ob(len(breaks) >= 1, u, 'a successful, non-skipped result ends the search (break)')
-    for b in breaks:
-        ctx.ob(cfg.dominates(node, b), u, 'the break follows an evaluation', node=b.ast)
-        g = [a for a in ancestors(b.ast) if isinstance(a, ast.If)]
+    # a win leaves the loop from inside its body: a break, or a return of the result
+    wins = [n for n in cfg.nodes if n.kind == 'stmt' and header in n.loop_stack
+            and (isinstance(n.ast, ast.Break) and n.loop_stack[-1] is header or isinstance(n.ast, ast.Return))]
+    ctx.ob(len(wins) >= 1, u, 'a successful, non-skipped result ends the search (break / return inside the loop)')
+    # skip tests: `[not] self.skip_func(ret)`; the edge taken when the result is NOT a skip value
+    tests = []
+    for n in cfg.nodes:
+        if n.kind != 'test' or header not in n.loop_stack:
+            continue
+        t = n.ast
+        neg = False
+        if isinstance(t, ast.UnaryOp) and isinstance(t.op, ast.Not):
+            t, neg = t.operand, True
+        if isinstance(t, ast.Call) and isinstance(t.func, ast.Attribute) and t.func.attr == 'skip_func' \
+                and len(t.args) == 1 and is_name(t.args[0], ret):
+            tests.append((n, 'true' if neg else 'false'))
+    for w in wins:
+        ctx.ob(cfg.dominates(node, w), u, 'the search ends only after an evaluation', node=w.ast)
         ok = False
-        if g:
-            t = g[0].test
-            if isinstance(t, ast.UnaryOp) and isinstance(t.op, ast.Not) and isinstance(t.operand, ast.Call) \
-                    and isinstance(t.operand.func, ast.Attribute) and t.operand.func.attr == 'skip_func' \
-                    and t.operand.args and is_name(t.operand.args[0], ret) and b.ast in g[0].body:
+        for t, keep in tests:
+            other = 'false' if keep == 'true' else 'true'
+            if cfg.dominates(t, w) and cfg.dominates(node, t) and \
+                    cfg.find_path(t, {w}, avoid={header}, start_labels=lambda lab, o=other: lab == o,
+                                  labels=lambda lab: lab != 'exc') is None and \
+                    cfg.find_path(t, {w}, avoid={header}, start_labels=lambda lab, k=keep: lab == k,
+                                  labels=lambda lab: lab != 'exc') is not None:
                 ok = True
-        ctx.ob(ok, u, 'the break is taken exactly when the result is not a skip value', node=b.ast)
-        # between evaluation and break no further evaluator call
-    # after break: straight to return ret without another evaluation (only one evaluator call exists)
-    rets = [n for n in u.own_nodes() if isinstance(n, ast.Return)]
-    ctx.ob(len(rets) == 1 and is_name(rets[0].value, ret), u, 'the winning result itself is returned: %s'
-           % [norm(r) for r in rets])
-    # default / default_factory / CoalesceError only on exhaustion
-    orelse_nodes = set()
-    for s in lp.orelse:
-        for x in ast.walk(s):
-            orelse_nodes.add(x)
+        ctx.ob(ok, u, 'the search ends exactly when the result is not a skip value', node=w.ast)
+        if isinstance(w.ast, ast.Return):
+            ctx.ob(is_name(w.ast.value, ret), u, 'the winning result itself is returned: %s' % norm(w.ast), node=w.ast)
+    # a skip value moves on: from the skip edge the loop header is reached again
+    for t, keep in tests:
+        other = 'false' if keep == 'true' else 'true'
+        pth = cfg.find_path(t, {header}, start_labels=lambda lab, o=other: lab == o, labels=lambda lab: lab != 'exc')
+        ctx.ob(pth is not None, u, 'a skip value moves on to the next alternative: %s' % norm(t.ast), node=t.ast)
+    # after a break: every return reached without exhausting the loop returns the result
+    brk = [w for w in wins if isinstance(w.ast, ast.Break)]
+    outside = [n for n in cfg.nodes if n.kind == 'stmt' and header not in n.loop_stack and n is not header]
+    after_break = [n for n in outside if any(cfg.find_path(bk, {n}, labels=lambda lab: lab != 'exc') is not None for bk in brk)]
+    for n in after_break:
+        if isinstance(n.ast, ast.Return):
+            ctx.ob(is_name(n.ast.value, ret), u, 'the winning result itself is returned: %s' % norm(n.ast), node=n.ast)
+    ctx.ob(any(isinstance(w.ast, ast.Return) for w in wins) or
+           any(isinstance(n.ast, ast.Return) for n in after_break), u, 'a win returns')
+    # default / default_factory / CoalesceError only on exhaustion: never inside the loop body and
+    # never reachable from a win
+    ab = {id(n.ast) for n in after_break}
     for n in u.own_nodes():
+        what = None
         if isinstance(n, ast.Attribute) and n.attr in ('default', 'default_factory') and is_name(n.value, u.params[0]):
-            ctx.ob(n in orelse_nodes, u, 'self.%s is consulted only when every alternative was skipped' % n.attr, node=n)
-        if isinstance(n, ast.Raise):
-            ctx.ob(n in orelse_nodes, u, 'CoalesceError is raised only on exhaustion: %s' % norm(n), node=n)
+            what = 'self.%s is consulted' % n.attr
+        elif isinstance(n, ast.Raise) and n.exc is not None:
+            what = 'CoalesceError is raised: %s;' % norm(n)
+        if what:
+            cn = cfg.node_containing(n)
+            ok = header not in cn.loop_stack and cn is not header and cn not in after_break
+            ctx.ob(ok, u, '%s only when every alternative was skipped' % what, node=n)
     # skip=: predicate as is, tuple -> membership, anything else -> equality
     iu = ctx.unit('core.Coalesce.__init__')
     chain = [n for n in iu.node.body if isinstance(n, ast.If) and norm(n.test) == 'self.skip is _MISSING']
